@@ -114,6 +114,8 @@ fn call(oracle: &str, v: &Value) -> Value {
         "incan::fmt_error_location" => c05::fmt_error_location(v),
         #[cfg(feature = "lsp")]
         "lsp::published_ranges" => server::published_ranges(v),
+        #[cfg(feature = "lsp")]
+        "lsp::dependency_ranges" => server::dependency_ranges(v),
         "syntax::get_line_info" | "syntax::format_error_location" => {
             use incan_syntax::diagnostics::{format_error, CompileError};
             use incan_syntax::ast::Span;
@@ -266,6 +268,120 @@ mod server {
                         json!("at least one diagnostic; every published range: start <= end, both ends positions of the document"), &echo, "ranges of published diagnostics lie inside the document")
             }
             Ok(None) => verdict(false, json!("no publishDiagnostics received within 10 s"), json!("diagnostics for an ill-formed document"), &echo, "the server must publish diagnostics"),
+            Err(m) => verdict(false, json!({"panicked": m}), json!("no panic"), &echo, "the server must not panic"),
+        }
+    }
+
+    pub const DEP_DOCS: &[&str] = &[
+        // one long line, illegal character far to the right
+        "const A: int = 1                                            $",
+        // non-ASCII text before an illegal character on the third line
+        "const A: int = 1\n# ééééééééééééééééééééééééééé 😀😀😀\nconst B: str = \"日本語\" $\n",
+        // a parse error on the last of several lines
+        "const A: int = 1\n\n\n\n\ndef broken( -> int:\n    return 1\n",
+        // CRLF line ends, parse error
+        "const A: int = 1\r\nconst B: int = 2\r\ndef g() -> int:\r\n    return 1 +\r\n",
+    ];
+    pub const ENTRY_DOCS: &[&str] = &[
+        // many short lines
+        "from helper import A\nconst K0: int = 0\nconst K1: int = 1\nconst K2: int = 2\nconst K3: int = 3\nconst K4: int = 4\nconst K5: int = 5\nconst K6: int = 6\nconst K7: int = 7\nconst K8: int = 8\n",
+        // a single line
+        "from helper import A",
+        // the import after non-ASCII comment lines
+        "# ééé 😀\n# 日本語\nfrom helper import A\n\ndef main() -> None:\n    println(A)\n",
+    ];
+
+    /// C19 bounded stand-in for collect_dependency_modules (what the server publishes for an IMPORTED module that does
+    /// not lex / parse, and the summary it attaches to the import): the real server is run over an in-memory pipe on an
+    /// entry document next to a dependency file on disk; every range published under the dependency's URI must lie inside
+    /// the DEPENDENCY's text and start where the front end's error span starts, every range published for the entry
+    /// document must lie inside the entry text.
+    pub fn dependency_ranges(v: &Value) -> Value {
+        use tokio::io::{AsyncReadExt, AsyncWriteExt};
+        let dep_text = DEP_DOCS[v["dep"].as_u64().unwrap() as usize % DEP_DOCS.len()].to_string();
+        let entry_text = ENTRY_DOCS[v["entry"].as_u64().unwrap() as usize % ENTRY_DOCS.len()].to_string();
+        let dir = std::env::temp_dir().join(format!("verif_c19_dep_{}_{}_{}", std::process::id(), v["dep"], v["entry"]));
+        let _ = std::fs::remove_dir_all(&dir);
+        if std::fs::create_dir_all(&dir).is_err() { return json!({"error": "cannot create a scratch directory"}); }
+        let _ = std::fs::write(dir.join("helper.incn"), &dep_text);
+        let _ = std::fs::write(dir.join("main.incn"), &entry_text);
+        let canon = |p: std::path::PathBuf| p.canonicalize().unwrap_or(p);
+        let dep_uri = Url::from_file_path(canon(dir.join("helper.incn"))).unwrap().to_string();
+        let entry_uri = Url::from_file_path(canon(dir.join("main.incn"))).unwrap().to_string();
+        // the spans the front end reports for the dependency (lexer errors, else parser errors)
+        let spans: Vec<usize> = match incan::frontend::lexer::lex(&dep_text) {
+            Err(es) => es.iter().map(|e| e.span.start).collect(),
+            Ok(toks) => match incan::frontend::parser::parse(&toks) { Err(es) => es.iter().map(|e| e.span.start).collect(), Ok(_) => Vec::new() },
+        };
+        let (e2, d2, et2) = (entry_uri.clone(), dep_uri.clone(), entry_text.clone());
+        let got = guarded(move || {
+            let rt = tokio::runtime::Builder::new_current_thread().enable_all().build().unwrap();
+            rt.block_on(async {
+                let (service, socket) = LspService::new(IncanLanguageServer::new);
+                let (client_io, server_io) = tokio::io::duplex(1 << 20);
+                let (sr, sw) = tokio::io::split(server_io);
+                let server = tower_lsp::Server::new(sr, sw, socket).serve(service);
+                let (mut r, mut w) = tokio::io::split(client_io);
+                async fn send<W: tokio::io::AsyncWrite + Unpin>(w: &mut W, body: serde_json::Value) {
+                    let t = body.to_string();
+                    let _ = w.write_all(format!("Content-Length: {}\r\n\r\n{}", t.len(), t).as_bytes()).await;
+                    let _ = w.flush().await;
+                }
+                async fn recv<R: tokio::io::AsyncRead + Unpin>(r: &mut R) -> serde_json::Value {
+                    let mut header = Vec::new();
+                    while !header.ends_with(b"\r\n\r\n") { let mut b = [0u8; 1]; if r.read_exact(&mut b).await.is_err() { return json!(null); } header.push(b[0]); }
+                    let header = String::from_utf8_lossy(&header).to_string();
+                    let len: usize = header.lines().find_map(|l| l.strip_prefix("Content-Length: ")).and_then(|x| x.trim().parse().ok()).unwrap_or(0);
+                    let mut body = vec![0u8; len];
+                    if r.read_exact(&mut body).await.is_err() { return json!(null); }
+                    serde_json::from_slice(&body).unwrap_or(json!(null))
+                }
+                let talk = async {
+                    send(&mut w, json!({"jsonrpc": "2.0", "id": 1, "method": "initialize", "params": {"capabilities": {}}})).await;
+                    loop { let m = recv(&mut r).await; if m.is_null() { return None; } if m["id"] == json!(1) { break; } }
+                    send(&mut w, json!({"jsonrpc": "2.0", "method": "initialized", "params": {}})).await;
+                    send(&mut w, json!({"jsonrpc": "2.0", "method": "textDocument/didOpen", "params": {"textDocument": {"uri": e2, "languageId": "incan", "version": 1, "text": et2}}})).await;
+                    let (mut dep, mut entry): (Option<Vec<Range>>, Option<Vec<Range>>) = (None, None);
+                    while dep.is_none() || entry.is_none() {
+                        let body = recv(&mut r).await;
+                        if body.is_null() { return None; }
+                        if body["method"] != "textDocument/publishDiagnostics" { continue; }
+                        let mut rs = Vec::new();
+                        for d in body["params"]["diagnostics"].as_array().cloned().unwrap_or_default() {
+                            let mut all = vec![d["range"].clone()];
+                            for ri in d["relatedInformation"].as_array().cloned().unwrap_or_default() { all.push(ri["location"]["range"].clone()); }
+                            for rg in all {
+                                let p = |x: &serde_json::Value| Position::new(x["line"].as_u64().unwrap_or(0) as u32, x["character"].as_u64().unwrap_or(0) as u32);
+                                rs.push(Range::new(p(&rg["start"]), p(&rg["end"])));
+                            }
+                        }
+                        if body["params"]["uri"] == json!(d2) { dep = Some(rs); } else if body["params"]["uri"] == json!(e2) { entry = Some(rs); }
+                    }
+                    Some((dep.unwrap(), entry.unwrap()))
+                };
+                tokio::select! {
+                    _ = server => None,
+                    _ = tokio::time::sleep(std::time::Duration::from_secs(10)) => None,
+                    d = talk => d,
+                }
+            })
+        });
+        let _ = std::fs::remove_dir_all(&dir);
+        let echo = json!({"dep": v["dep"], "entry": v["entry"], "dependency_text": dep_text, "entry_text": entry_text});
+        let show = |r: &Range| json!([[r.start.line, r.start.character], [r.end.line, r.end.character]]);
+        match &got {
+            Ok(Some((dep, entry))) => {
+                let bad_dep: Vec<_> = dep.iter().filter(|r| !range_ok(&dep_text, r)).map(show).collect();
+                let bad_entry: Vec<_> = entry.iter().filter(|r| !range_ok(&entry_text, r)).map(show).collect();
+                // every front-end error span start is the start of some published dependency range
+                let want: Vec<(u32, u32)> = spans.iter().map(|&o| { let p = super::pos_of(&dep_text, super::first_boundary_at_or_after(&dep_text, o)); (p.0 as u32, p.1 as u32) }).collect();
+                let missing: Vec<_> = want.iter().filter(|w| !dep.iter().any(|r| (r.start.line, r.start.character) == **w)).map(|w| json!([w.0, w.1])).collect();
+                verdict(bad_dep.is_empty() && bad_entry.is_empty() && !dep.is_empty() && missing.is_empty(),
+                        json!({"dependency_ranges": dep.iter().map(show).collect::<Vec<_>>(), "outside_dependency_text": bad_dep, "entry_ranges_outside_entry_text": bad_entry, "error_starts_not_published": missing}),
+                        json!({"dependency": "at least one diagnostic; every range inside the dependency's text, starting where the front end's span starts", "starts": want.iter().map(|w| json!([w.0, w.1])).collect::<Vec<_>>(), "entry": "every range inside the entry text"}),
+                        &echo, "diagnostics published for an imported module are positions of THAT module's text")
+            }
+            Ok(None) => verdict(false, json!("publishDiagnostics for the dependency and the entry document not both received within 10 s"), json!("diagnostics for both documents"), &echo, "the server must publish diagnostics for a broken dependency"),
             Err(m) => verdict(false, json!({"panicked": m}), json!("no panic"), &echo, "the server must not panic"),
         }
     }
@@ -437,11 +553,15 @@ mod c05 {
         let stmt = if compound { format!("    {} {}= {}\n", lname, op, r) } else { format!("    q = {} {} {}\n", l, op, r) };
         // `shadow`: the statement sits in an inner block whose `total` / `n` shadow outer variables of the OTHER kind
         let shadow = v["shadow"].as_bool().unwrap_or(false);
+        // `constshadow`: string constants with the names of the int / float variables exist at module level; the variables
+        // of the function shadow them, so the arithmetic must still be numeric (never the const-folded `concat!`)
+        let consts = if v["constshadow"].as_bool().unwrap_or(false) { "const a: str = \"s\"\nconst b: str = \"w\"\nconst x: str = \"t\"\nconst n: str = \"u\"\nconst total: str = \"v\"\n\n" } else { "" };
         let src = if shadow {
             format!("model Item:\n    qty: int\n    price: float\n\ndef f(it: Item, xs: List[int], a: int, b: int, x: float) -> None:\n    mut total: int = 1\n    mut n: float = 0.5\n    if a > 0:\n        mut total: float = 0.5\n        mut n: int = 1\n    {}\ndef main() -> None:\n    pass\n", stmt)
         } else {
             format!("model Item:\n    qty: int\n    price: float\n\ndef f(it: Item, xs: List[int], a: int, b: int, x: float) -> None:\n    mut total: float = 0.5\n    mut n: int = 1\n{}\ndef main() -> None:\n    pass\n", stmt)
         };
+        let src = format!("{}{}", consts, src);
         let got = guarded(|| {
             let tokens = incan::frontend::lexer::lex(&src).map_err(|e| format!("lex: {:?}", e.first().map(|x| x.message.clone())))?;
             let prog = incan::frontend::parser::parse(&tokens).map_err(|e| format!("parse: {:?}", e.first().map(|x| x.message.clone())))?;
@@ -961,11 +1081,13 @@ fn search(oracle: &str, seed: u64, budget: u64, skip: &[String]) -> Value {
                 json!({"op": k % 7, "lfloat": (k / 7) % 2 == 0, "rfloat": (k / 14) % 2 == 0, "ann_float": (k / 28) % 2 == 0, "form": forms[((k / 56) % 7) as usize], "position": pos[((k / 392) % 4) as usize], "wrap": (k / 1568) % 2 == 1, "spell": (k / 3136) % 3})
             }
             "incan::emit_promotion" => {
-                // exhaustive: 4 operators x 4 left forms x 11 right forms x plain/compound x flat/shadowing block = 704 programs (inapplicable combinations are skipped)
-                let k = n % 704;
-                json!({"op": k % 4, "l": (k / 4) % 4, "r": (k / 16) % 11, "compound": (k / 176) % 2 == 1, "shadow": (k / 352) % 2 == 1})
+                // exhaustive: 4 operators x 4 left forms x 11 right forms x plain/compound x flat/shadowing block x with/without
+                // module-level string constants of the same names = 1408 programs (inapplicable combinations are skipped)
+                let k = n % 1408;
+                json!({"op": k % 4, "l": (k / 4) % 4, "r": (k / 16) % 11, "compound": (k / 176) % 2 == 1, "shadow": (k / 352) % 2 == 1, "constshadow": (k / 704) % 2 == 1})
             }
             "lsp::published_ranges" => json!({"doc": n % 6}),
+            "lsp::dependency_ranges" => { let k = n % 12; json!({"dep": k % 4, "entry": k / 4}) }
             "incan::fmt_error_location" => { let k = n % 15; json!({"prefix": k % 5, "lead": k / 5}) }
             "lsp::server_ranges" => {
                 // exhaustive: 6 fixed documents x every character boundary as the cursor
